@@ -54,6 +54,17 @@ _kv("C36", "Ingest and excise behave like their logical equivalents", "Ingest ==
     "removes the span; reads after each step and open iterators across excises are validated by TLC against the model.", "DESIGN 6/C36")
 _kv("C37", "EFOS keep their protected view", "Reads through eventually-file-only snapshots inside their protected ranges, before and after "
     "the forced file-only transition and across overlapping excises, are validated by TLC against the pinned model state.", "DESIGN 6/C37")
+_kv("C38", "Checkpoints open to a consistent, complete state", "Checkpoints (with/without WithFlushedWAL, with restricted spans) taken at random "
+    "history positions are opened with the real Open and fully read; TLC requires the state to be a prefix of the history containing every "
+    "acknowledged entry (exactly the visible state with a flushed WAL; equality inside the spans when restricted).", "DESIGN 6/C38")
+_kv("C44", "Separated values read back identically", "The C01/C03/C04 workloads under value-separation policies whose thresholds straddle the driver's "
+    "value sizes (blob rewrite enabled, ingests, snapshots, long-lived iterators): every value is decoded byte for byte by the driver and every read "
+    "validated by TLC; the evidence reports how many blob files were live. Crash behaviour of separated values is exercised by the crash engine's "
+    "crashvs configuration (C10/C11).", "DESIGN 6/C44")
+_kv("C45", "Internal scans reproduce the visible state", "ScanInternal over random spans of the DB and of snapshots (collapsed and with obsolete keys) is replayed "
+    "into an empty real DB; TLC requires the replica's visible state inside the span to equal the model's view of the source.", "DESIGN 6/C45")
+_kv("C47", "Close releases everything", "Every workload ends by closing all handles and the DB: Close must return nil, the goroutine count must return to its "
+    "baseline, no file or lock may stay open on the counting filesystem, and the directory must reopen to exactly the model state (TLC).", "DESIGN 6/C47")
 
 
 def _discover():
